@@ -76,17 +76,28 @@ func (x *X) Table(traces []Trace, result int, cls Classifier) ([]Row, error) {
 	// classifier does not know and that calls a helper of the same package is
 	// replaced by the helper's own rows (parameters bound to the arguments).
 	guards := map[ast.Stmt][]string{} // per trace: positive in-loop atoms so far
+	negInLoop := map[ast.Stmt]bool{}  // per trace: an element test was false in this iteration
 	addLits := func(ps []*pre, lits []Lit) ([]*pre, error) {
 		for _, l := range lits {
 			l.Expr = x.subst(l.Expr)
 			if l.Root == nil {
 				l.Root, l.Subst = x.G.Body, x.subst
 			}
+			// a literal constant (left by a table row substituted for the loop variable)
+			if bv, isConst := BoolConst(x.Info, l.Expr); isConst {
+				if bv != l.Val {
+					for _, p := range ps {
+						p.dead = true
+					}
+				}
+				continue
+			}
 			a, pol, ok := cls(l)
 			if ok {
 				v := l.Val == pol
 				if l.Loop != nil {
 					if !v {
+						negInLoop[l.Loop] = true
 						continue
 					}
 					if loopAtoms[l.Loop] == nil {
@@ -175,7 +186,9 @@ func (x *X) Table(traces []Trace, result int, cls Classifier) ([]Row, error) {
 					}
 					for _, a := range scs {
 						for k := range a {
-							a[k].Loop = l.Loop
+							if a[k].Loop == nil {
+								a[k].Loop = l.Loop
+							}
 						}
 						repl = append(repl, expandLits(a, b.env, depth-1)...)
 					}
@@ -250,6 +263,38 @@ func (x *X) Table(traces []Trace, result int, cls Classifier) ([]Row, error) {
 		}
 		return env
 	}
+	// a local that a nested function literal assigns (a result captured by a callback) cannot be
+	// followed along the paths of this body: the table is not extractable then
+	closureAssigned := map[types.Object]bool{}
+	ast.Inspect(x.G.Body, func(n ast.Node) bool {
+		fl, ok := n.(*ast.FuncLit)
+		if !ok {
+			return true
+		}
+		ast.Inspect(fl.Body, func(m ast.Node) bool {
+			if as, ok := m.(*ast.AssignStmt); ok && as.Tok == token.ASSIGN {
+				for _, l := range as.Lhs {
+					if id, ok := ast.Unparen(l).(*ast.Ident); ok {
+						if o := core.ObjOf(x.Info, id); o != nil {
+							closureAssigned[o] = true
+						}
+					}
+				}
+			}
+			return true
+		})
+		return false
+	})
+	usesCaptured := func(e ast.Expr) bool {
+		hit := false
+		ast.Inspect(e, func(n ast.Node) bool {
+			if id, ok := n.(*ast.Ident); ok && closureAssigned[core.ObjOf(x.Info, id)] {
+				hit = true
+			}
+			return !hit
+		})
+		return hit
+	}
 	var pres []*pre
 	for ti := range traces {
 		t := &traces[ti]
@@ -268,7 +313,9 @@ func (x *X) Table(traces []Trace, result int, cls Classifier) ([]Row, error) {
 		ps := []*pre{p}
 		env := map[types.Object]*bind{}
 		cenv := map[types.Object]constant.Value{} // locals holding a constant on this path
+		copies := map[types.Object]*ast.Ident{}   // locals holding a copy of another local on this path (`err = connErr`)
 		guards = map[ast.Stmt][]string{}
+		negInLoop = map[ast.Stmt]bool{}
 		var err error
 		infeasible := false
 		for _, e := range t.Evs {
@@ -276,7 +323,16 @@ func (x *X) Table(traces []Trace, result int, cls Classifier) ([]Row, error) {
 			case e.Node != nil:
 				env = assigned(e.Node, env)
 				x.constStep(e.Node, cenv)
+				x.copyStep(e.Node, copies)
 			case e.Lit != nil:
+				if ne := x.throughCopies(e.Lit.Expr, copies); ne != e.Lit.Expr {
+					l := *e.Lit
+					l.Expr = ne
+					e.Lit = &l
+				}
+				if usesCaptured(e.Lit.Expr) {
+					return nil, fmt.Errorf("`%s` depends on a variable assigned inside a function literal", core.NodeString(x.G.Fset, e.Lit.Expr))
+				}
 				if v, known := x.constTest(e.Lit.Expr, cenv); known {
 					if v != e.Lit.Val {
 						infeasible = true
@@ -296,6 +352,13 @@ func (x *X) Table(traces []Trace, result int, cls Classifier) ([]Row, error) {
 					next = append(next, cp...)
 				}
 				ps = next
+			}
+		}
+		// "some iteration failed an element test, then the loop ended" says nothing definite about
+		// the list: such a path is covered by the paths of the other iterations
+		for _, e := range t.Evs {
+			if e.Again && negInLoop[e.Done] {
+				infeasible = true
 			}
 		}
 		if infeasible {
@@ -320,6 +383,9 @@ func (x *X) Table(traces []Trace, result int, cls Classifier) ([]Row, error) {
 			res = x.Named[result] // bare return of a named result
 		default:
 			return nil, fmt.Errorf("return statement without result %d", result)
+		}
+		if usesCaptured(res) {
+			return nil, fmt.Errorf("the result `%s` is assigned inside a function literal", core.NodeString(x.G.Fset, res))
 		}
 		if bv, ok := BoolConst(x.Info, res); ok {
 			for _, q := range ps {
@@ -377,6 +443,116 @@ func (x *X) Table(traces []Trace, result int, cls Classifier) ([]Row, error) {
 		}
 	}
 	return rows, nil
+}
+
+// copyStep records which locals hold a plain copy of another local after executing n.
+func (x *X) copyStep(n ast.Node, copies map[types.Object]*ast.Ident) {
+	local := func(e ast.Expr) *types.Var {
+		id, ok := ast.Unparen(e).(*ast.Ident)
+		if !ok {
+			return nil
+		}
+		v, ok := core.ObjOf(x.Info, id).(*types.Var)
+		if !ok || v.IsField() || v.Pkg() == nil || v.Parent() == v.Pkg().Scope() {
+			return nil
+		}
+		return v
+	}
+	kill := func(o types.Object) {
+		delete(copies, o)
+		for k, src := range copies {
+			if core.ObjOf(x.Info, src) == o {
+				delete(copies, k)
+			}
+		}
+	}
+	switch st := n.(type) {
+	case *ast.AssignStmt:
+		type upd struct {
+			o   *types.Var
+			src *ast.Ident
+		}
+		var upds []upd
+		for i, l := range st.Lhs {
+			lo := local(l)
+			if lo == nil {
+				continue
+			}
+			var src *ast.Ident
+			if len(st.Lhs) == len(st.Rhs) && (st.Tok == token.ASSIGN || st.Tok == token.DEFINE) {
+				if ro := local(st.Rhs[i]); ro != nil && ro != lo && types.Identical(ro.Type(), lo.Type()) {
+					if b, isBasic := ro.Type().Underlying().(*types.Basic); !isBasic || b.Kind() != types.Bool {
+						src = ast.Unparen(st.Rhs[i]).(*ast.Ident)
+						if deeper := copies[ro]; deeper != nil {
+							src = deeper
+						}
+					}
+				}
+			}
+			upds = append(upds, upd{lo, src})
+		}
+		for _, u := range upds {
+			kill(u.o)
+		}
+		for _, u := range upds {
+			if u.src != nil {
+				copies[u.o] = u.src
+			}
+		}
+	case *ast.IncDecStmt:
+		if o := local(st.X); o != nil {
+			kill(o)
+		}
+	case *ast.DeclStmt:
+		if gd, ok := st.Decl.(*ast.GenDecl); ok {
+			for _, sp := range gd.Specs {
+				if vs, ok := sp.(*ast.ValueSpec); ok {
+					for _, nm := range vs.Names {
+						if o := x.Info.Defs[nm]; o != nil {
+							kill(o)
+						}
+					}
+				}
+			}
+		}
+	case *ast.RangeStmt:
+		for _, e := range []ast.Expr{st.Key, st.Value} {
+			if e != nil {
+				if o := local(e); o != nil {
+					kill(o)
+				}
+			}
+		}
+	}
+}
+
+// throughCopies rewrites e with every local that holds a copy replaced by the local it was copied from.
+func (x *X) throughCopies(e ast.Expr, copies map[types.Object]*ast.Ident) ast.Expr {
+	if len(copies) == 0 {
+		return e
+	}
+	hit := false
+	ast.Inspect(e, func(n ast.Node) bool {
+		if id, ok := n.(*ast.Ident); ok && copies[x.Info.Uses[id]] != nil {
+			hit = true
+		}
+		return !hit
+	})
+	if !hit {
+		return e
+	}
+	cl := &cloner{info: x.Info}
+	cl.repl = func(sub ast.Expr) ast.Expr {
+		if id, ok := sub.(*ast.Ident); ok {
+			if src := copies[x.Info.Uses[id]]; src != nil {
+				return src
+			}
+		}
+		return nil
+	}
+	out := cl.clone(e).(ast.Expr)
+	cl.transfer(nil)
+	return out
 }
 
 // constStep records which locals hold a constant after executing n.
@@ -481,8 +657,14 @@ func (x *X) inline(l Lit, cls Classifier) ([]Row, error) {
 	var hg *cfgq.Graph
 	lit, _ := ast.Unparen(call.Fun).(*ast.FuncLit)
 	if id, ok := ast.Unparen(call.Fun).(*ast.Ident); ok && lit == nil {
-		if d, ok := SingleDef(x.Info, x.G.Body, id); ok && d.Rhs != nil && d.Index == -1 {
-			lit, _ = ast.Unparen(d.Rhs).(*ast.FuncLit)
+		// a closure bound once to a local of this body or, for a function value handed down to an
+		// inlined helper, of one of the bodies it was handed down from
+		for _, root := range append([]ast.Node{x.G.Body}, x.roots...) {
+			if d, ok := SingleDef(x.Info, root, id); ok && d.Rhs != nil && d.Index == -1 {
+				if lit, _ = ast.Unparen(d.Rhs).(*ast.FuncLit); lit != nil {
+					break
+				}
+			}
 		}
 	}
 	if lit != nil {
@@ -549,6 +731,8 @@ func (x *X) inline(l Lit, cls Classifier) ([]Row, error) {
 	}
 	hx := New(hg)
 	hx.Prog, hx.bind, hx.depth, hx.LoopDecisions = x.Prog, bind, x.depth-1, x.LoopDecisions
+	hx.roots = append([]ast.Node{x.G.Body}, x.roots...)
+	hx.Rewrite = x.Rewrite
 	hx.ZeroInit = map[types.Object]bool{}
 	if results != nil {
 		for _, fl := range results.List {
@@ -634,8 +818,23 @@ func (x *X) Expand(id *ast.Ident) ast.Expr {
 	ast.Inspect(d.Rhs, func(n ast.Node) bool {
 		if m, ok := n.(*ast.Ident); ok && stable {
 			if v, ok := core.ObjOf(x.Info, m).(*types.Var); ok && !v.IsField() && v.Pkg() != nil && v.Parent() != v.Pkg().Scope() {
-				if len(DefsOf(x.Info, x.G.Body, v)) > 1 {
-					stable = false
+				if defs := DefsOf(x.Info, x.G.Body, v); len(defs) > 1 {
+					// assigned several times: still the same value at every use when none of the
+					// assignments can run after the boolean has been computed
+					from, found := Find(x.G, d.Stmt)
+					if !found {
+						stable = false
+						return false
+					}
+					for _, od := range defs {
+						target := od.Stmt
+						if w := x.G.Path(cfgq.Query{From: from, After: true, Target: func(n ast.Node) bool { return n == target }}); w != nil {
+							stable = false
+						}
+						if _, inGraph := Find(x.G, target); !inGraph {
+							stable = false
+						}
+					}
 				}
 			}
 		}
